@@ -48,8 +48,80 @@ def model_session(entries):
     return {'out': it.out, 'errors': errors}
 
 
+FIXED_SEED = 190019
+FIXED_N = 240
+KNOWN_SESSIONS = '/verif/known_repl_sessions.json'
+SEVERITY = {'': 0, 'deadlock-report': 1, 'stdout': 2, 'crash': 3}
+
+
+def failure_kind(why):
+    if not why:
+        return ''
+    if 'same stdout, but the session reports' in why:
+        return 'deadlock-report'
+    if 'crashed' in why:
+        return 'crash'
+    return 'stdout'
+
+
+def fixed_session(idx):
+    """fixed, seed-independent corpus of sessions in which main also SENDS to fibers launched on earlier lines"""
+    r = one_chan(FIXED_SEED, idx, kinds=('producer', 'echo', 'accumulate'), cfgs=(('dbg', []),), tag='fx')
+    if 'refused' in r:
+        return idx, None, None
+    why = ''
+    for m in r['mism']:
+        if m[0] == 'violation' and SEVERITY[failure_kind(m[2])] > SEVERITY[failure_kind(why)]:
+            why = m[2]
+    return idx, why, r['session']
+
+
+def one_chan(seed, idx, kinds=('producer',), cfgs=None, tag='c'):
+    """fibers that live across prompt lines; oracle: the same lines as one file"""
+    rng = random.Random((seed << 20) ^ (idx * 19) ^ zlib.crc32(b'C19chan'))
+    case = gen_repl.chan_case(rng, kinds)
+    d = os.path.join(WORK[0], '%s%d' % (tag, idx))
+    os.makedirs(d, exist_ok=True)
+    session = '\n'.join(case['lines']) + '\n'
+    open(os.path.join(d, 'session.txt'), 'w').write(session)
+    fpath = os.path.join(d, 'file.lay')
+    open(fpath, 'w').write(session)
+    mism = []
+    evals = 1
+    f = vlib.lyrun(BINS['dbg'], fpath, ['--steps', '5000000'], timeout=30, cwd=d)
+    if f.outcome != 'ok':
+        # the generator only builds networks that terminate; anything else in file mode is C07/C08's business
+        return {'refused': 'file run of a channel session ended with ' + f.outcome}
+    for cfg, opts in (cfgs or (('dbg', []), ('rel', []), ('dbg', ['--gc', 'every:2', '--sweep', 'alt', '--alloc', 'reuse']))):
+        r = vlib.lyrun(BINS[cfg], None, opts + ['--steps', '5000000'], stdin_text=session, timeout=30, cwd=d)
+        evals += 1
+        if r.outcome in ('timeout', 'harness'):
+            mism.append(('inconclusive', cfg, r.outcome))
+            continue
+        out = r.out.replace('laythe:> ', '')
+        why = None
+        if vlib.is_crash(r.outcome) or r.outcome == 'steps':
+            why = 'channel session crashed: %s %s' % (r.outcome, r.detail)
+        elif r.outcome not in ('ok', 'deadlock'):
+            why = 'channel session ended with %s' % r.outcome
+        else:
+            ok, w = diffrun.same_output(f.out.split('\n')[:-1] if f.out.endswith('\n') else f.out.split('\n'), out)
+            if not ok:
+                why = 'channel session vs file: stdout: ' + w
+            elif r.outcome == 'deadlock':
+                why = ('channel session vs file: same stdout, but the session reports %d deadlock(s) on stderr that '
+                       'the file run does not have' % r.err.count('Fatal error deadlock'))
+        if why:
+            mism.append(('violation', cfg, why, r.brief(), opts))
+    return {'mism': mism, 'session': session, 'file': session, 'evals': evals,
+            'tags': sorted(case['tags']) + ['fibers_across_lines'], 'entries': len(case['lines']), 'bad': 0,
+            'shape': hashlib.sha1(session.encode()).hexdigest()[:12], 'expected': f.out.split('\n')[-30:]}
+
+
 def one(args):
     seed, idx = args
+    if idx % 5 == 4:
+        return one_chan(seed, idx)
     rng = random.Random((seed << 20) ^ (idx * 17) ^ zlib.crc32(b'C19'))
     case = gen_repl.case(rng)
     entries = case['entries']
@@ -60,6 +132,9 @@ def one(args):
         lines.append(text)
         if e['kind'] == 'ok':
             good.append(text)
+        elif e.get('file_stmts'):
+            # the definitions an entry made before it failed
+            good.append(one_line(e['file_stmts']))
     m = model_session(entries)
     if 'refused' in m:
         return {'refused': m['refused']}
@@ -104,7 +179,44 @@ def one(args):
             'expected': m['out'][-30:]}
 
 
+def fixed_corpus(chk):
+    import json
+    try:
+        known = {int(k): v for k, v in json.load(open(KNOWN_SESSIONS))['failing'].items()}
+    except (OSError, ValueError, KeyError):
+        known = {}
+    for idx, why, session in vlib.pmap(fixed_session, range(FIXED_N), chunksize=4):
+        if why is None:
+            chk.count('fixed_sessions_file_run_not_ok (C07/C08 territory)')
+            continue
+        chk.evaluations += 2
+        chk.count('fixed_channel_sessions')
+        kind = failure_kind(why)
+        if not kind:
+            continue
+        if idx in known and SEVERITY[kind] <= SEVERITY[known[idx]]:
+            chk.count('fixed_channel_sessions_known_failures')
+            f = [x for x in chk.findings['findings'] if x['id'] == 'D47']
+            chk.known.setdefault('D47', {'what': f[0]['what_fails'] if f else 'fibers across prompt lines', 'n': 0})
+            chk.known['D47']['n'] += 1
+        else:
+            chk.violation('fixed-corpus channel session#%d (%s in known_repl_sessions.json): %s' % (
+                idx, 'listed as ' + known[idx] if idx in known else 'not listed', why),
+                {'session.txt': session, 'file.lay': session}, {'idx': idx})
+
+
 def main():
+    if '--make-known' in sys.argv:
+        import json
+        BINS['dbg'] = vlib.build('dbg')['lyrun']
+        WORK[0] = vlib.workdir('known_repl')
+        failing = {}
+        for idx, why, session in vlib.pmap(fixed_session, range(FIXED_N), chunksize=4):
+            if why:
+                failing[str(idx)] = failure_kind(why)
+        json.dump({'seed': FIXED_SEED, 'n': FIXED_N, 'failing': failing}, open(KNOWN_SESSIONS, 'w'), indent=0, sort_keys=True)
+        print(len(failing), 'of', FIXED_N, 'fixed channel sessions show D47')
+        return 0
     tier = sys.argv[sys.argv.index('--tier') + 1] if '--tier' in sys.argv else 'quick'
     chk = vlib.Check(PROP, tier)
     n = int(os.environ.get('VERIF_N', '0')) or (1000 if tier == 'quick' else 40000)
@@ -115,6 +227,8 @@ def main():
         sys.stderr.write(str(e) + '\n')
         return 2
     WORK[0] = vlib.workdir(PROP)
+    chk.run_witnesses(BINS['dbg'])
+    fixed_corpus(chk)
     tags = {}
     for r in vlib.pmap(one, [(chk.seed, i) for i in range(n)], chunksize=4):
         if 'refused' in r:
@@ -140,11 +254,15 @@ def main():
     chk.rule = ('sessions of 5-60 one-line entries mixing let/fn/class definitions, instances, calls into definitions '
                 'from any earlier line, functions with property/invoke sites over earlier objects (cache slots), classes '
                 'extended on later lines, closures over session variables, assignments, entries that fail to compile '
-                '(syntax, undeclared, redeclaration) and entries that raise; after every failing entry a probe uses '
-                'earlier definitions. Oracles: session stdout == reference model; session stdout == the good lines run '
+                '(syntax, undeclared, redeclaration), entries that raise, and entries that define a function with '
+                'call sites and then raise; after every failing entry a probe uses earlier definitions; every fifth '
+                'session launches fibers on one line and talks to them over channels on later lines (oracle: same '
+                'lines as one file). Oracles: session stdout == reference model; session stdout == the good lines run '
                 'as one file; dbg, rel and dbg under a collection schedule with address reuse')
     chk.require('sessions', chk.counters.get('sessions', 0), n // 2)
     chk.require('failing entries', chk.counters.get('failing_entries', 0), n // 4)
+    chk.require('sessions with fibers across lines', tags.get('fibers_across_lines', 0), n // 10)
+    chk.require('entries that define and then fail', tags.get('define_then_fail', 0), n // 20)
     return chk.finish()
 
 
